@@ -6,3 +6,4 @@ CONSTANT UNIQUE_BUSY = TRUE
 INVARIANT NoLostTask
 CHECK_DEADLOCK FALSE
 CONSTANT PUBLISH_GUARDED = FALSE
+CONSTANT CLEAR_CHECKED = TRUE
